@@ -35,7 +35,7 @@ def shape_key(case, results):
             return "trk-" + r.req.split()[1] + ("-invalid-choice" if "invalid-choice" in r.flags else "")
     return "none"
 
-SOURCE_TIE = "Source-level tie by proof (Tie/VMetric, Tie/Voting, Tie/VisVoting, Props/C12s): the decision kernels of VisualMetric, BestFitVoting::winners and the cascade VisualVoting::winners (appearance first, positional stage on exactly the remaining distances) as regenerated from the source equal the model's / the cascade specification."
+SOURCE_TIE = "Source-level tie by proof (Tie/VMetric, Tie/Voting, Tie/VisVoting, Props/C12s): the decision kernels of VisualMetric, BestFitVoting::winners and the cascade VisualVoting::winners (appearance first, positional stage on exactly the remaining distances) as regenerated from the source equal the model's / the cascade specification. Also by proof (Tie/OptimizeV): VisualMetric::metric as a whole (the appearance distance exists only if the candidate's feature passes the use thresholds, both observations carry a feature and the track has collected enough)."
 LEVEL_TEXT = LEVEL_TEXT + " " + SOURCE_TIE
 TRUSTED_BASE = TRUSTED_BASE + ["translator/kernels.py + rustexpr.py (reader of the Rust subset, per-function tables) for the functions named in SOURCE_TIE; generated definitions are proof obligations (Tie modules) on every run"]
 TECHNIQUE = TECHNIQUE + "; model regenerated from the source by a translator for the functions of SOURCE_TIE, tied by proof"
